@@ -2391,10 +2391,11 @@ func (s *Server) serveConnCounted(c net.Conn, countConcurrency bool) error {
 
 		connectionClose bool
 
-		continueReadingRequest = true
+		continueReadingRequest bool
 	)
 	for {
 		connRequestNum++
+		continueReadingRequest = true
 
 		if connRequestNum == 1 {
 			// Apply ReadTimeout to the first request byte.
@@ -2577,6 +2578,8 @@ func (s *Server) serveConnCounted(c net.Conn, countConcurrency bool) error {
 					}
 
 					ctx.SetStatusCode(StatusExpectationFailed)
+					// Close connection since client may have already started sending body data.
+					connectionClose = true
 				}
 			}
 
